@@ -457,6 +457,93 @@ func c15LongRun(c *Ctx, n int, poison bool, quietSpell ...bool) {
 	}
 }
 
+// c15Undeliverable: the backend answers the BYE of a dialog whose caller came over TCP, but the
+// answer cannot be delivered: the caller's connection has gone (closed / reset by the caller) and
+// nothing listens on the port it announced. "Dissolved when the backend answers a BYE" does not
+// depend on the relay of that answer: afterwards the dialog's identifiers are load-balanced.
+// variant: 0 healthy connection (control), 1 closed by the caller, 2 reset by the caller
+func c15Undeliverable(c *Ctx, variant int) {
+	cfg := RCfg{Name: "svc.example.com", DialogTimeout: c15T, Listens: []RListen{{Addr: "127.0.0.1", UDP: 5060, TCP: 5062, Backends: []string{"udp://" + c15Backends[0], "udp://" + c15Backends[1], "udp://" + c15Backends[2]}}}}
+	w := StartRelayWorld(SimOpts{}, cfg)
+	defer w.Close()
+	name := fmt.Sprintf("bye-answer-undeliverable(%s)", []string{"connection healthy", "connection closed by the caller before the answer", "connection reset by the caller before the answer"}[variant])
+	cs := c15Case{fmt.Sprintf("undeliverable:%d", variant), nil}
+	c.Res.Evaluations++
+	c.Res.Executions++
+	conn := w.Client("ua", "127.0.0.9", "127.0.0.1:5062")
+	seq := 0
+	req := func(method string, toTag string, tcp bool) ([]string, *WMsg) {
+		seq++
+		to := "<sip:bob@svc.example.com>"
+		if toTag != "" {
+			to += ";tag=" + toTag
+		}
+		tr, sentBy := "UDP", c15UA
+		if tcp {
+			tr, sentBy = "TCP", "127.0.0.9:6001"
+		}
+		m := MsgSpec{Method: method, RURI: "sip:bob@svc.example.com", Vias: []string{fmt.Sprintf("SIP/2.0/%s %s;branch=z9hG4bKud%d", tr, sentBy, seq)}, From: "<sip:alice@ua.example.net>;tag=fu", To: to,
+			CallID: "c15-undeliverable", CSeq: fmt.Sprintf("%d %s", seq, method)}.Build()
+		w.Observe()
+		if tcp {
+			w.SendTCP(conn, m.Render())
+		} else {
+			w.SendUDP(c15UA, c15Lst, m.Render())
+		}
+		var tos []string
+		var rel *WMsg
+		for _, p := range w.Observe().Pkts {
+			tos = append(tos, p.To)
+			rel, _ = ReadWire(p.Data)
+		}
+		return tos, rel
+	}
+	tos, rel := req("INVITE", "", true)
+	if len(tos) != 1 || rel == nil {
+		return // not constructible (C03 / C12 judge that)
+	}
+	be := tos[0]
+	w.SendUDP(be, c15Lst, ResponseTo(rel, 200, "tu").Render())
+	w.Observe()
+	tos, _ = req("ACK", "tu", true)
+	if len(tos) != 1 || tos[0] != be {
+		return // the pin does not hold at all: C04's matter
+	}
+	tos, rel = req("BYE", "tu", true)
+	if len(tos) != 1 || rel == nil {
+		return
+	}
+	switch variant {
+	case 1:
+		conn.Close()
+	case 2:
+		conn.Reset()
+	}
+	w.S.Run()
+	w.Observe()
+	w.SendUDP(tos[0], c15Lst, ResponseTo(rel, 200, "tu").Render())
+	w.Observe()
+	if vd := w.S.Verdict(); vd != "" {
+		c.Violate("health|"+name, "health", name+": "+vd, cs)
+		return
+	}
+	c.Res.Nontrivial++
+	seen := map[string]bool{}
+	var order []string
+	for k := 0; k < 4; k++ {
+		tos, _ := req("INFO", "tu", false)
+		if len(tos) != 1 {
+			c.Violate("probe-not-relayed-once|"+name, "probe-not-relayed-once", fmt.Sprintf("%s: probe %d went to %v", name, k, tos), cs)
+			return
+		}
+		seen[tos[0]] = true
+		order = append(order, tos[0])
+	}
+	if len(seen) < 3 {
+		c.Violate("pin-honoured-after-it-ended|"+name, "pin-honoured-after-it-ended", fmt.Sprintf("%s: the backend %s answered the BYE with 200, yet four later requests with the dialog's identifiers went to %v (load balancing over three backends reaches at least three)", name, be, order), cs)
+	}
+}
+
 // c15LongRepin: n dialogs pinned together expire together; while the purge of that population is
 // under way some of them are established again, more dialogs follow, and the re-established ones
 // must still be pinned (their new lifetime has only just begun).
@@ -616,6 +703,11 @@ func c15Run(c *Ctx) {
 	if c.Worker == 3%c.NWorkers {
 		c15LongRepin(c, 1000)
 	}
+	for variant := 0; variant < 3; variant++ {
+		if c.Worker == (6+variant)%c.NWorkers {
+			c15Undeliverable(c, variant)
+		}
+	}
 	cleanupYamlFiles()
 }
 
@@ -628,6 +720,16 @@ func init() {
 			defer cleanupYamlFiles()
 			var cs c15Case
 			json.Unmarshal(raw, &cs)
+			if strings.HasPrefix(cs.Mode, "undeliverable:") {
+				cc := &Ctx{ID: "C15x", Res: newResult(), vmap: map[string]*Violation{}, Deadline: c.Deadline, NWorkers: 1}
+				var n int
+				fmt.Sscanf(cs.Mode, "undeliverable:%d", &n)
+				c15Undeliverable(cc, n)
+				if len(cc.Res.Violations) > 0 {
+					return cc.Res.Violations[0].Clause
+				}
+				return ""
+			}
 			if strings.HasPrefix(cs.Mode, "repin:") {
 				cc := &Ctx{ID: "C15x", Res: newResult(), vmap: map[string]*Violation{}, Deadline: c.Deadline, NWorkers: 1}
 				var n int
